@@ -14,7 +14,9 @@
    and the PAR store machine  Authz | Push | Tick  with an explicit clock.
    Tied to the code by harness/drv_C16.py (correspondence on every run).  No proofs here. *)
 From Coq Require Import String.
-From Verif Require Import Lib.Base Lib.PyStr Lib.Crypto.
+From Verif Require Import Lib.Base.
+From Verif Require Import Lib.PyStr.
+From Verif Require Import Lib.Crypto.
 Open Scope string_scope.
 
 (* ------------------------------------------------------------------ parameters *)
@@ -609,3 +611,27 @@ Fixpoint run (g : cfg) (d : docs) (st : state) (ops : list op) : list (state * r
   end.
 
 Definition init (t0 : Z) : state := {| par_db := []; now := t0 |}.
+
+(* ------------------------------------------------------------------ vocabulary of the statements in Props/C16.v *)
+Definition pushed_urn (o : op) : list pystr := match o with OPush _ _ _ u => [u] | _ => [] end.
+Definition pushed_urns (ops : list op) : list pystr := flat_map pushed_urn ops.
+(* the request_uri through which a pushed request was redeemed (the authorization request was accepted) *)
+Definition redeemed_of (r : result) : list pystr := match r with RAuthz (Acc _) (Some u) => [u] | _ => [] end.
+Definition redeemed (l : list (state * result)) : list pystr := flat_map (fun sr => redeemed_of (snd sr)) l.
+Definition tick_ok (o : op) : Prop := match o with OTick dt => (0 <= dt)%Z | _ => True end.
+
+(* ghost history: (request_uri issued, time of the push, lifetime announced) of every push that stored a request *)
+Definition hist := list (pystr * Z * Z).
+Definition hist_after (g : cfg) (st : state) (o : op) (r : result) (h : hist) : hist :=
+  match o, r with
+  | OPush _ _ _ u, RPush (Acc _) (PUrn e) => (u, now st, e) :: h
+  | OPush _ _ _ u, RPush (Acc _) (PStoredExc _) => (u, now st, ttl g) :: h
+  | _, _ => h
+  end.
+Fixpoint run_h (g : cfg) (d : docs) (st : state) (h : hist) (ops : list op) : list (state * result * hist) :=
+  match ops with
+  | [] => []
+  | o :: rest => let '(st', r) := step g d st o in
+                 let h' := hist_after g st o r h in
+                 (st', r, h') :: run_h g d st' h' rest
+  end.
